@@ -511,20 +511,24 @@ impl<'a, F: Field> Sub<&'a SparsePolynomial<F>> for &DensePolynomial<F> {
             self.clone()
         } else {
             let mut result = self.clone();
+            // The degree is read once: the loop below may cancel the leading
+            // coefficient, after which `degree()` is no longer meaningful.
+            let lhs_degree = result.degree();
             // If `other` has higher degree than `self`, create a dense vector
             // storing the upper coefficients of the subtraction
-            let mut upper_coeffs = match other.degree() > result.degree() {
-                true => vec![F::zero(); other.degree() - result.degree()],
+            let mut upper_coeffs = match other.degree() > lhs_degree {
+                true => vec![F::zero(); other.degree() - lhs_degree],
                 false => Vec::new(),
             };
             for (pow, coeff) in other.iter() {
-                if *pow <= result.degree() {
+                if *pow <= lhs_degree {
                     result.coeffs[*pow] -= coeff;
                 } else {
-                    upper_coeffs[*pow - result.degree() - 1] = -*coeff;
+                    upper_coeffs[*pow - lhs_degree - 1] = -*coeff;
                 }
             }
             result.coeffs.extend(upper_coeffs);
+            result.truncate_leading_zeros();
             result
         }
     }
@@ -567,20 +571,24 @@ impl<'a, F: Field> SubAssign<&'a SparsePolynomial<F>> for DensePolynomial<F> {
             }
         } else if other.is_zero() {
         } else {
+            // The degree is read once: the loop below may cancel the leading
+            // coefficient, after which `degree()` is no longer meaningful.
+            let lhs_degree = self.degree();
             // If `other` has higher degree than `self`, create a dense vector
             // storing the upper coefficients of the subtraction
-            let mut upper_coeffs = match other.degree() > self.degree() {
-                true => vec![F::zero(); other.degree() - self.degree()],
+            let mut upper_coeffs = match other.degree() > lhs_degree {
+                true => vec![F::zero(); other.degree() - lhs_degree],
                 false => Vec::new(),
             };
             for (pow, coeff) in other.iter() {
-                if *pow <= self.degree() {
+                if *pow <= lhs_degree {
                     self.coeffs[*pow] -= coeff;
                 } else {
-                    upper_coeffs[*pow - self.degree() - 1] = -*coeff;
+                    upper_coeffs[*pow - lhs_degree - 1] = -*coeff;
                 }
             }
             self.coeffs.extend(upper_coeffs);
+            self.truncate_leading_zeros();
         }
     }
 }
